@@ -10,7 +10,7 @@ CONTRACTS = ['contracts.trackers', 'contracts.multi_value']
 CLOSURE = [
     {'fn': 'MultiValueTracker.__init__'}, {'fn': 'MultiValueTracker.update'},
     {'fn': 'MultiValueTracker.__call__'}, {'fn': 'MultiValueTracker.get'},
-    {'fn': 'MultiValueTracker.get_normalized'},
+    {'fn': 'MultiValueTracker.get_normalized'}, {'fn': 'MultiValueTracker.get_normalized#kinds'},
     # the per-key step is the base tracker's update: both implementations against the interface contract
     {'fn': 'WelfordTracker.update', 'clauses': ['count', 'lin', 'kind_const', 'inv:*', 'frame:*', 'returns_self']},
     {'fn': 'ExponentialSmoothingTracker.update', 'clauses': ['count', 'lin', 'kind_const', 'inv:*', 'frame:*', 'returns_self']},
